@@ -1,8 +1,9 @@
 (* Executable model of sympde.expr.equation (C18):
      EssentialBC.__new__   -> [classify] / [essential_new]
      Equation.__new__      -> [normalise] (value semantics) and [equation_new]
-                              (object semantics: a store of EssentialBC objects
-                              whose [_position] attribute is mutated in place)
+                              (object semantics: a store of EssentialBC objects; the
+                              constructor appends new objects and never writes into
+                              the given ones - /repo commit c2083c1)
    The model follows the Python code arm by arm.  No proofs here: the model still
    runs when a proof breaks. *)
 From Coq Require Import String Ascii List Bool Arith PeanoNat ZArith.
@@ -253,44 +254,48 @@ Fixpoint index_fn (v : fn) (l : list fn) : nat :=
   | t :: r => if fn_eqb t v then 0 else S (index_fn v r)
   end.
 
-(* [EssentialBC(i.lhs, i.rhs, j, position=i.position, index_component=i.index_component)
+(* EssentialBC(i.lhs, i.rhs, <boundary>, position=position, index_component=i.index_component):
+   the constructor builds every condition it keeps anew, from the sides and the components
+   of the given one *)
+Definition rebuild (i : ebc) (bd : bnd) (position : nat) : res ebc :=
+  essential_new (b_lhs i) (b_rhs i) bd (Some position) (a_ic (b_attrs i)).
+
+(* [EssentialBC(i.lhs, i.rhs, j, position=position, index_component=i.index_component)
     for j in i.boundary._args] *)
-Fixpoint expand (i : ebc) (faces : list face) : res (list ebc) :=
+Fixpoint expand (i : ebc) (position : nat) (faces : list face) : res (list ebc) :=
   match faces with
   | [] => Ok []
   | j :: r =>
-      match essential_new (b_lhs i) (b_rhs i) (BFace j) (b_pos i) (a_ic (b_attrs i)) with
+      match rebuild i (BFace j) position with
       | Err e => Err e
-      | Ok x => match expand i r with Err e => Err e | Ok xs => Ok (x :: xs) end
+      | Ok x => match expand i position r with Err e => Err e | Ok xs => Ok (x :: xs) end
       end
   end.
 
-(* the loop `for i in bc:` of Equation.__new__, on values: what eq.bc holds when the
-   constructor returns *)
+(* what one given condition contributes to newbc *)
+Definition contribution (i : ebc) (position : nat) : res (list ebc) :=
+  match b_bnd i with
+  | BUnion l => expand i position l
+  | bd => match rebuild i bd position with Err e => Err e | Ok x => Ok [x] end
+  end.
+
+(* the loop `for i in bc:` of Equation.__new__, on values: what eq.bc holds *)
 Fixpoint normalise (trials : list fn) (bcs : list ebc) : res (list ebc) :=
   match bcs with
   | [] => Ok []
   | i :: rest =>
       if negb (mem_fn (a_var (b_attrs i)) trials) then Err ArgsErr else
       let position := index_fn (a_var (b_attrs i)) trials in
-      let i := set_position i position in
-      match (match b_bnd i with BUnion l => expand i l | _ => Ok [i] end) with
+      match contribution i position with
       | Err e => Err e
       | Ok blk => match normalise trials rest with Err e => Err e | Ok out => Ok (blk ++ out) end
       end
   end.
 
 (* --- object semantics.  The store holds every EssentialBC object created so far; an
-   object is named by its index.  set_position overwrites the stored object; a condition
-   on a single face is put into eq.bc as the same object, the conditions of a union are
-   new objects appended to the store. *)
+   object is named by its index.  The constructor never writes into an object: the
+   conditions it keeps are new objects appended to the store. *)
 Definition store := list ebc.
-Fixpoint set_nth {A} (k : nat) (v : A) (l : list A) : list A :=
-  match l, k with
-  | [], _ => []
-  | _ :: r, 0 => v :: r
-  | x :: r, S k' => x :: set_nth k' v r
-  end.
 
 Definition map_ok (g : list nat -> list nat) (x : store * res (list nat)) : store * res (list nat) :=
   match x with
@@ -307,16 +312,42 @@ Fixpoint eq_loop (trials : list fn) (h : store) (refs : list nat) : store * res 
       | Some i =>
           if negb (mem_fn (a_var (b_attrs i)) trials) then (h, Err ArgsErr) else
           let position := index_fn (a_var (b_attrs i)) trials in
+          match contribution i position with
+          | Err e => (h, Err e)
+          | Ok blk =>                                      (* new objects, appended to the store *)
+              map_ok (app (seq (length h) (length blk))) (eq_loop trials (h ++ blk) rest)
+          end
+      end
+  end.
+
+(* --- the loop as it was before commit c2083c1 (kept for the record): the position was
+   written into the given object (set_position) and a condition on a single face was put
+   into eq.bc as that same object *)
+Fixpoint set_nth {A} (k : nat) (v : A) (l : list A) : list A :=
+  match l, k with
+  | [], _ => []
+  | _ :: r, 0 => v :: r
+  | x :: r, S k' => x :: set_nth k' v r
+  end.
+
+Fixpoint eq_loop_before_fix (trials : list fn) (h : store) (refs : list nat) : store * res (list nat) :=
+  match refs with
+  | [] => (h, Ok [])
+  | r :: rest =>
+      match nth_error h r with
+      | None => (h, Err TypeErr)
+      | Some i =>
+          if negb (mem_fn (a_var (b_attrs i)) trials) then (h, Err ArgsErr) else
+          let position := index_fn (a_var (b_attrs i)) trials in
           let i' := set_position i position in
           let h1 := set_nth r i' h in                     (* i.set_position(position) *)
           match b_bnd i' with
           | BUnion l =>
-              match expand i' l with
+              match expand i' position l with
               | Err e => (h1, Err e)
-              | Ok blk =>                                  (* new objects, appended to the store *)
-                  map_ok (app (seq (length h1) (length blk))) (eq_loop trials (h1 ++ blk) rest)
+              | Ok blk => map_ok (app (seq (length h1) (length blk))) (eq_loop_before_fix trials (h1 ++ blk) rest)
               end
-          | _ => map_ok (cons r) (eq_loop trials h1 rest)   (* newbc += [i] : the same object *)
+          | _ => map_ok (cons r) (eq_loop_before_fix trials h1 rest)   (* newbc += [i] *)
           end
       end
   end.
@@ -337,8 +368,8 @@ Definition is_ref (i : item) : bool := match i with IRef _ => true | INotBC => f
 Definition refs_of (l : list item) : list nat :=
   flat_map (fun i => match i with IRef r => [r] | INotBC => [] end) l.
 
-(* returns the store after the call (objects whose position was set before an error
-   keep it) and the equation or the error *)
+(* returns the store after the call (the given objects are untouched; new objects may
+   have been appended) and the equation or the error *)
 Definition equation_new (h : store) (lhs rhs : form) (trials tests : list fn) (bc : bcarg)
   : store * res equation :=
   match lhs with
